@@ -206,7 +206,7 @@ def gen_plan(profile, seed, tier="quick"):
             gm = "ambient"
         prog.append({"op": "call", "id": new_id(), "slot": s, "arg": spec,
                      "requires_grad": rg, "grad_mode": gm, "out": r,
-                     "i6": rng.random() < 0.3})
+                     "i6": rng.random() < 0.3, "nonleaf": rg and rng.random() < 0.1})
         regs[c].append((r, fam, "fwd", rg and gm in ("ambient", "enable_grad")))
         return r, fam
 
@@ -327,6 +327,7 @@ def gen_plan(profile, seed, tier="quick"):
                     cands = [emit_call(c, prog, _pick(rng, fwd_slots), force_rg=True)[0]]
                 prog.append({"op": "backward", "id": new_id(), "handle": _pick(rng, cands),
                              "seed": rng.randrange(1 << 30), "retain": rng.random() < 0.4,
+                             "create_graph": rng.random() < 0.1,
                              "out_mask": rng.randrange(0, 256) if rng.random() < 0.4 else 0,
                              "leaf_mask": rng.randrange(0, 256) if rng.random() < 0.4 else 0})
             elif k == "convert":
